@@ -2,6 +2,8 @@ package main
 
 import (
 	"flag"
+	"math/big"
+	"strconv"
 	"fmt"
 	"os"
 	"sort"
@@ -22,6 +24,7 @@ type World struct {
 	repo  string
 	funcs map[string]*ssa.Function // by contract key
 	repoP map[string]bool
+	mutatedGlobals map[string]bool
 }
 
 func loadWorld(repo, specDir string) (*World, error) {
@@ -49,6 +52,20 @@ func loadWorld(repo, specDir string) (*World, error) {
 	w := &World{prog: prog, pkgs: pkgs, spkgs: spkgs, db: db, repo: repo, funcs: map[string]*ssa.Function{}, repoP: map[string]bool{}}
 	for _, p := range pkgs {
 		w.repoP[p.PkgPath] = true
+	}
+	w.mutatedGlobals = map[string]bool{}
+	for fn := range ssautil.AllFunctions(prog) {
+		if fn.Name() != "init" || fn.Parent() != nil {
+			for _, b := range fn.Blocks {
+				for _, in := range b.Instrs {
+					if st, ok := in.(*ssa.Store); ok {
+						if g, ok := st.Addr.(*ssa.Global); ok && g.Pkg != nil {
+							w.mutatedGlobals[g.Pkg.Pkg.Name()+"."+g.Name()] = true
+						}
+					}
+				}
+			}
+		}
 	}
 	for fn := range ssautil.AllFunctions(prog) {
 		p := fn.Pkg
@@ -82,6 +99,22 @@ func (w *World) newExec() *Exec {
 	x := NewExec(w.prog, w.db, w.prog.Fset)
 	x.repoPkgs = w.repoP
 	x.globals = map[string]func(*State) *Value{}
+	for name, val := range w.db.Globals {
+		name, val := name, val
+		if w.mutatedGlobals[name] {
+			fmt.Fprintf(os.Stderr, "gvc: package variable %s is assigned outside init; its declared initial value is ignored\n", name)
+			continue
+		}
+		x.globals[name] = func(st *State) *Value {
+			x.trusted["package variable "+name+" holds its initial value "+val+" (no assignment to it exists outside init — checked syntactically on every run)"] = true
+			if strings.HasPrefix(val, "\"") {
+				u, _ := strconv.Unquote(val)
+				return scalar(tStr, x.strLit(u))
+			}
+			n, _ := new(big.Int).SetString(val, 0)
+			return scalar(tInt, BigLit(n))
+		}
+	}
 	x.loadSpecAxioms()
 	return x
 }
